@@ -453,7 +453,18 @@ func (fr *Frame) loopHead(l *Loop, reach *Term, st *State) (*Term, *State) {
 		}
 	}
 	if fr.depth == 0 {
-		vc.loopGuards = append(vc.loopGuards, hreach)
+		// for the vacuity guard: the loop must be reachable under the assumptions, unless the contract itself declares it
+		// unreachable by giving it the invariant `false`
+		declaredDead := false
+		for _, inv := range ls.Invariants {
+			if strings.TrimSpace(inv.Src) == "false" || strings.HasSuffix(strings.TrimSpace(inv.Src), "] false") {
+				declaredDead = true
+			}
+		}
+		if !declaredDead {
+			vc.loopGuards = append(vc.loopGuards, hreach)
+			vc.loopGuardNames = append(vc.loopGuardNames, fmt.Sprintf("loop %d", l.Ordinal))
+		}
 	}
 	return hreach, st
 }
